@@ -367,6 +367,8 @@ def prop_rr(spec, rec):
     require(sorted(out) == sorted(ids), "every_station_in_schedule", lambda: "keys %r" % sorted(out))
     r_out = [float(out[s][0]) for s in ids]
     labels = {"sort_" + spec["sort"], "rr", "inc_%s" % inc}
+    if len(spec["sessions"]) >= 16:
+        labels.add("sixteen_or_more_sessions_queued")
     try:
         blocked = judge_rr(spec, net, ids, ph, A, L, info, r_out, rec, labels)
     except Skip as e:
@@ -570,12 +572,17 @@ def sim_cases(draw):
 
 
 @st.composite
-def cases(draw, finite_max=True):
+def cases(draw, finite_max=True, large=False):
     n = draw(st.integers(2, 6))
     ids = list(draw(st.permutations(sc.STATION_POOL)))[:n]
+    big = large and draw(st.integers(0, 5)) == 0
+    if big:
+        # a full car park: 16-22 sessions queued at once on three phases
+        n = draw(st.integers(16, 22))
+        ids = ["PS-%d" % i for i in draw(st.permutations(range(1, n + 1)))]
     stations = [draw(sc.station_specs(i, ("cont0", "finite"))) for i in ids]
     period = draw(st.sampled_from([1, 5, 15, 7, 8, 2.5]))
-    k = draw(st.integers(1, n))
+    k = n if big else draw(st.integers(1, n))
     chosen = list(draw(st.permutations(range(n))))[:k]
     arrivals = draw(st.lists(st.integers(-30, 0), min_size=k, max_size=k, unique=True))
     ests = draw(st.lists(st.integers(-12, 40), min_size=k, max_size=k, unique=True))
@@ -589,9 +596,15 @@ def cases(draw, finite_max=True):
     m = draw(st.integers(1, 4))
     cons = []
     for j in range(m):
-        members = draw(st.lists(st.sampled_from(ids), min_size=1, max_size=n, unique=True))
+        members = draw(st.lists(st.sampled_from(ids), min_size=n // 2 if big else 1, max_size=n, unique=True))
         coeffs = {i: draw(st.sampled_from([1.0, 1.0, 1.0, -1.0, 0.5, -0.25])) for i in members}
         cons.append({"name": "con-%d" % j, "limit": draw(st.sampled_from([4.0, 7.5, 10.0, 20.0, 33.0, 50.0, 100.0])), "coeffs": coeffs})
+    if big and draw(st.booleans()):
+        # a wye site with a neutral-conductor limit: balanced currents cancel, a single raise does not
+        tri = draw(st.sampled_from([[0.0, -120.0, 120.0], [30.0, -90.0, 150.0]]))
+        for q, stn in enumerate(stations):
+            stn["phase"] = tri[q % 3]
+        cons = [{"name": "neutral", "limit": draw(st.sampled_from([4.0, 7.5, 10.0])), "coeffs": {i: 1.0 for i in ids}}] + cons[:2]
     return {"period": period, "stations": stations, "constraints": cons, "sessions": sessions, "sort": draw(st.sampled_from(sorted(sc.SORTS))), "inc": draw(st.sampled_from([0.1, 0.5, 1, 2.5]))}
 
 
@@ -599,7 +612,7 @@ def subchecks(tier):
     return [
         Given("greedy", cases(), prop_greedy, quick=1200, thorough=150000, floors={"constraint_binds": 0.2}, min_nontrivial=100),
         Given("greedy_session_bounds", bounds_cases(), prop_greedy_bounds, quick=800, thorough=80000, floors={"level_list_without_zero": 0.15, "session_upper_bound": 0.2, "constraint_binds": 0.1, "no_listed_level_fits": 0.01}),
-        Given("round_robin", cases(), prop_rr, quick=800, thorough=100000, floors={"stopped_by_infeasibility": 0.15}),
+        Given("round_robin", cases(large=True), prop_rr, quick=800, thorough=100000, floors={"stopped_by_infeasibility": 0.15, "sixteen_or_more_sessions_queued": 0.04}),
         Given("sorted_sim", sim_cases(), prop_sorted_sim, quick=250, thorough=20000, floors={"estimated_departure_already_past": 0.1}),
         Given("uncontrolled", cases(), prop_uncontrolled, quick=300, thorough=20000),
         Given("uncontrolled_sim", sc.scenarios(scheduler="uncontrolled", kinds=("cont0", "deadband", "finite"), noise=False), prop_uncontrolled_sim, quick=150, thorough=10000, floors={"call_after_a_departure": 0.3, "call_with_satisfied_session_connected": 0.1}),
